@@ -15,6 +15,7 @@ import (
 var (
 	regFlags         = regexp.MustCompile(`flags=\(([^)]+)\)`)
 	regProfileHeader = regexp.MustCompile(` {\n`)
+	regHeaderLine    = regexp.MustCompile(`(?m)^.* {\n`)
 )
 
 type Complain struct {
@@ -31,12 +32,17 @@ func init() {
 }
 
 func (b Complain) Apply(opt *Option, profile string) (string, error) {
+	// Apply to each block header (main profile, sub-profiles, hats) on its own
+	return regHeaderLine.ReplaceAllStringFunc(profile, setComplain), nil
+}
+
+func setComplain(profile string) string {
 	flags := []string{}
 	matches := regFlags.FindStringSubmatch(profile)
 	if len(matches) != 0 {
 		flags = strings.Split(matches[1], ",")
 		if slices.Contains(flags, "complain") {
-			return profile, nil
+			return profile
 		}
 	}
 	flags = append(flags, "complain")
@@ -44,5 +50,5 @@ func (b Complain) Apply(opt *Option, profile string) (string, error) {
 
 	// Remove all flags definition, then set manifest' flags
 	profile = regFlags.ReplaceAllLiteralString(profile, "")
-	return regProfileHeader.ReplaceAllLiteralString(profile, strFlags), nil
+	return regProfileHeader.ReplaceAllLiteralString(profile, strFlags)
 }
